@@ -234,7 +234,10 @@ func evalC11(c *engine.Case) engine.Verdict {
 				}(i)
 			}
 			close(start)
-			wg.Wait()
+			if msg := waitOrDeadlock(&wg, "evalC11"); msg != "" {
+				v.Failf("step %d: %s", si, msg)
+				return v
+			}
 			// per-goroutine events cannot be attributed; the global log is checked
 			for i := range outs {
 				outs[i].Events = nil
@@ -510,7 +513,10 @@ func evalC12(c *engine.Case) engine.Verdict {
 		}(gi, ops)
 	}
 	close(start)
-	wg.Wait()
+	if msg := waitOrDeadlock(&wg, "evalC12"); msg != "" {
+		v.Failf("%s", msg)
+		return v
+	}
 	evs := w.EventsSince(0)
 	if msg := engine.CheckBindings(w, evs); msg != "" {
 		v.Failf("concurrent world: %s", msg)
@@ -684,3 +690,50 @@ func genC12(g engine.G) *engine.Case {
 }
 
 func TestC12(t *testing.T) { runProp(t, "C12", genC12) }
+
+
+// waitOrDeadlock waits for the worker goroutines of a concurrent case. The
+// operations take microseconds; if the workers have not finished after several
+// seconds, the goroutine dump decides: when EVERY unfinished worker (a
+// goroutine with a frame of the evaluator named by marker) is blocked
+// acquiring a mutex inside the library, none of them can ever release one --
+// a deadlock, reported as such. Anything else (a slow, busy machine) keeps
+// waiting; a wall-clock limit alone is never taken for a verdict.
+func waitOrDeadlock(wg *sync.WaitGroup, marker string) string {
+	done := make(chan struct{})
+	go func() { wg.Wait(); close(done) }()
+	for {
+		select {
+		case <-done:
+			return ""
+		case <-time.After(6 * time.Second):
+		}
+		buf := make([]byte, 4<<20)
+		dump := string(buf[:runtime.Stack(buf, true)])
+		workers, stuck := 0, 0
+		sample := ""
+		for _, blk := range strings.Split(dump, "\n\n") {
+			if !strings.Contains(blk, marker+".func") || strings.Contains(blk, "waitOrDeadlock") {
+				continue
+			}
+			workers++
+			head := blk
+			if i := strings.Index(blk, "\n"); i >= 0 {
+				head = blk[:i]
+			}
+			inLock := strings.Contains(head, "sync.Mutex.Lock") || strings.Contains(head, "semacquire")
+			if inLock && strings.Contains(blk, "sync.(*Mutex).Lock") && strings.Contains(blk, "go-argmapper.(*Func).") {
+				stuck++
+				if sample == "" {
+					sample = blk
+				}
+			}
+		}
+		if workers >= 2 && stuck == workers {
+			if len(sample) > 1500 {
+				sample = sample[:1500]
+			}
+			return fmt.Sprintf("deadlock: all %d unfinished goroutines are blocked acquiring a mutex inside the library (none can release one); one of them:\n%s", workers, sample)
+		}
+	}
+}
